@@ -55,7 +55,7 @@ func GenReacquirePlan(t *rapid.T, profile string) *Plan {
 // GenRestartInFlightPlan, GenStragglerPlan, GenStopAfterUnnoticedLossPlan and GenStallPlan.
 func MixReacquire(profile string, gen func(*rapid.T) *Plan) func(*rapid.T) *Plan {
 	return func(t *rapid.T) *Plan {
-		k := rapid.IntRange(0, 8).Draw(t, "shape")
+		k := rapid.IntRange(0, 9).Draw(t, "shape")
 		switch os.Getenv("VERIF_ONLY_SHAPE") { // (development aid)
 		case "reacquire":
 			k = 0
@@ -67,6 +67,8 @@ func MixReacquire(profile string, gen func(*rapid.T) *Plan) func(*rapid.T) *Plan
 			k = 3
 		case "stall":
 			k = 4
+		case "old-loop":
+			k = 5
 		}
 		switch k {
 		case 0:
@@ -79,6 +81,8 @@ func MixReacquire(profile string, gen func(*rapid.T) *Plan) func(*rapid.T) *Plan
 			return GenStopAfterUnnoticedLossPlan(t, profile)
 		case 4:
 			return GenStallPlan(t, profile)
+		case 5:
+			return GenOldWatchLoopPlan(t, profile)
 		}
 		return gen(t)
 	}
@@ -332,6 +336,37 @@ func GenStallPlan(t *rapid.T, profile string) *Plan {
 	tick := ts + 10*time.Millisecond + time.Duration(k)*h
 	p.Timeline = append(p.Timeline, Action{At: odd(tick + time.Duration(rapid.Int64Range(int64(time.Millisecond), int64(d-time.Millisecond)).Draw(t, "b_after_tick"))), Kind: ActStart, Inst: 2})
 	p.Horizon = tick + 8*h + p.TTL + 2*time.Second
+	sortTimeline(p)
+	return p
+}
+
+// GenOldWatchLoopPlan builds the shape "a watch loop that outlives its run acts in the next one": follower F's
+// periodic check is stuck in a Get for nine seconds; Stop gives up waiting for it after five; the leader hands
+// the key over and F, started again, is elected at once - so its new run has no watch loop of its own. A
+// higher-priority instance preempts F a few milliseconds before the old Get returns, and before F's next
+// heartbeat: the old loop, whose watcher is still open, finds the event and its run's cancellation ready
+// together, and when select picks the event it is the old loop that ends F's new term (OnDemote included).
+func GenOldWatchLoopPlan(t *rapid.T, profile string) *Plan {
+	h := time.Second
+	p := &Plan{Profile: profile + "/old-watch-loop-outlives-its-run", H: h, TTL: 3 * h, SnapEvery: odd(h/3 + 59*time.Microsecond), Dice: []float64{0}}
+	f := Inst{ID: "F", Group: "g", Priority: 1, Lat: []time.Duration{1, 3}, Promote: rapid.SampledFrom([]int{0, 1}).Draw(t, "promote"),
+		Rules: []OpRule{{Kind: OpGet, N: 2, SetLat: true, ReqLat: 9 * time.Second, RespLat: 1}},
+		// the events that pile up in the old watcher's channel while its loop is stuck (L's refreshes, the
+		// hand-over, F's own record and refreshes: ordinals 2..13) are lost, so that the takeover is the first
+		// thing the loop finds when it comes back - otherwise it would have to win a coin toss against its
+		// run's cancellation for every stale event in front of it
+		WatchDrop: []int{2, 3, 4, 5, 6, 7, 8, 9, 10, 11, 12, 13}}
+	p.Instances = []Inst{{ID: "L", Group: "g", Priority: 1, Lat: []time.Duration{1, 3}}, f,
+		{ID: "H", Group: "g", Priority: 2, Takeover: true, Lat: []time.Duration{3, 5}}}
+	// F starts at 10ms: its periodic Gets are issued at 0.51s, 1.01s, 1.51s (the slow one, applied at 10.51s);
+	// restarted at 7.5s it leads at once, with heartbeats at 8.5s, 9.5s, 10.5s, 11.5s
+	tH := 10500*time.Millisecond + odd(time.Duration(rapid.Int64Range(int64(500*time.Microsecond), int64(9*time.Millisecond)).Draw(t, "takeover_at")))
+	p.Timeline = []Action{{At: 1, Kind: ActStart, Inst: 0}, {At: 10 * time.Millisecond, Kind: ActStart, Inst: 1},
+		{At: odd(2 * time.Second), Kind: ActStop, Inst: 1},
+		{At: odd(7200 * time.Millisecond), Kind: ActStopCtx, Inst: 0, DeleteKey: true},
+		{At: 7500 * time.Millisecond, Kind: ActStart, Inst: 1},
+		{At: tH, Kind: ActStart, Inst: 2}}
+	p.Horizon = 16 * time.Second
 	sortTimeline(p)
 	return p
 }
